@@ -1,0 +1,47 @@
+//go:build verif
+
+package ggql
+
+//@ -- ================================================================== C03: reflective method call with request-derived arguments
+//@ -- reflect.Value is modelled by two observers, rvalid(v) and rtype(v); reflect.Type by its pure methods.
+//@ interface reflect.Type.NumIn
+//@   pure
+//@ interface reflect.Type.IsVariadic
+//@   pure
+//@ interface reflect.Type.In
+//@   pure
+//@   requires[index-in-range] 0 <= i && i < recv.NumIn()
+//@ interface reflect.Type.Elem
+//@   pure
+//@ interface reflect.Type.AssignableTo
+//@   pure
+//@ -- the documented preconditions of reflect.Value.Call: a valid callee, an argument count that fits its type, and every
+//@ -- argument valid and assignable to its parameter (the element type of the last one for a variadic callee)
+//@ spec paramType(mt reflect.Type, i int) reflect.Type = ite(mt.IsVariadic() && mt.NumIn()-1 <= i, mt.In(mt.NumIn()-1).Elem(), mt.In(i))
+//@ spec countFits(mt reflect.Type, n int) bool = ite(mt.IsVariadic(), mt.NumIn()-1 <= n, n == mt.NumIn())
+//@ spec argsFit(mt reflect.Type, args []reflect.Value, n int) bool = forall i int {args[i]} :: 0 <= i && i < n ==> rvalid(args[i]) && rtype(args[i]).AssignableTo(paramType(mt, i))
+//@ autoaxiom callOkDef(m reflect.Value, args []reflect.Value) {callok(m, args)}: rvalid(m) && countFits(rtype(m), len(args)) && argsFit(rtype(m), args, len(args)) ==> callok(m, args)
+//@ autoaxiom assignableRefl(t reflect.Type) {t.AssignableTo(t)}: t != nil ==> t.AssignableTo(t)
+//@ autoaxiom inNonNil(t reflect.Type, i int) {t.In(i)}: 0 <= i && i < t.NumIn() ==> t.In(i) != nil
+//@ autoaxiom elemNonNil(t reflect.Type) {t.Elem()}: t != nil ==> t.Elem() != nil
+//@ autoaxiom variadicHasParam(t reflect.Type) {t.IsVariadic()}: t.IsVariadic() ==> t.NumIn() >= 1
+
+//@ -- assumed: the method value cached by regField (reflect.Type.Method(i).Func) is a valid reflect.Value
+//@ fieldinv FieldDef.method: v != nil ==> rvalidat(v)
+
+//@ -- the argument vector handed to the reflected method: either errors and no call, or a vector that meets the
+//@ -- preconditions of reflect.Value.Call for a callee of type mt whose receiver accepts ov
+//@ func (*Root).formReflectArgs
+//@   props C03
+//@   check panic {C03}
+//@   requires root != nil && field != nil && fd != nil && mt != nil
+//@   requires rvalid(ov)
+//@   results args, ea
+//@   ensures[call-ready] len(ea) == 0 ==> countFits(mt, len(args)) && argsFit(mt, args, len(args))
+//@   ensures[errs-fresh] errsFresh(ea)
+//@   ensures[no-resolver] #res == old(#res)
+//@   assigns fresh
+//@   loop 0: invariant[count] len(args) == rangeindex + 2 && rangeindex + 1 <= len(fd.args.list) && fresh(args)
+//@           invariant[fit] argsFit(mt, args, len(args))
+//@           invariant[shape] countFits(mt, len(fd.args.list) + 1) && len(ea) == 0
+//@           invariant[no-resolver] #res == old(#res)
